@@ -17,7 +17,7 @@ def _conc_dfs(cfg, prog, bound, max_runs, seed, base_tid):
     out = []
     while ex.next():
         t = concdriver.run_program(cfg, prog, ex.strategy(), seed, 0)
-        out.append(slim(t))
+        out.append(slim(t, {1} if cfg.get('lock_client') else ()))
     return out
 
 
@@ -27,9 +27,11 @@ def _conc_rand(cfg, prog, seed):
     return [slim(t)]
 
 
-def slim(t):
+def slim(t, drop=()):
     ev = []
     for e in t['ev']:
+        if e.get('c') in drop:
+            continue                 # the independent lock holder (a raw connection): not a Deque client
         if e['ev'] in ('call', 'ret'):
             ev.append({k: e[k] for k in ('ev', 'c', 'op', 'a', 'ret') if k in e})
         elif e['ev'] in ('commit', 'awrite', 'final'):
@@ -86,6 +88,15 @@ def run(prop, tier, seed):
             cfg = dict(policy='none', cull=10, limit=2 ** 30, stats=False, shared=0, kind='deque', maxlen=-1, timeout=0,
                        busy_budget=2, init_items=[1, 2, 3][:m + 1])
             cj_dfs.append((cfg, {1: [{'op': 'setmaxlen', 'a': {'m': m}}], 2: [other]}, 2, 60 if tier == 'quick' else 300, seed, 0))
+    # every operation of a Deque waits for the write lock (C14): an independent connection holds it when the operation
+    # starts or takes it while the operation works, and gives it up after a failed attempt - no operation may fail
+    for o in ({'op': 'append', 'a': {'v': 7}}, {'op': 'appendleft', 'a': {'v': 7}}, {'op': 'pop', 'a': {}}, {'op': 'popleft', 'a': {}},
+              {'op': 'setitem', 'a': {'i': 1, 'v': 8}}, {'op': 'delitem', 'a': {'i': 0}}, {'op': 'extend', 'a': {'vs': [5, 6]}},
+              {'op': 'remove', 'a': {'v': 2}}, {'op': 'rotate', 'a': {'n': 1}}, {'op': 'reverse', 'a': {}}, {'op': 'clear', 'a': {}},
+              {'op': 'setmaxlen', 'a': {'m': 2}}):
+        cfg = dict(policy='none', cull=10, limit=2 ** 30, stats=False, shared=0, kind='deque', maxlen=-1, timeout=0, busy_budget=1,
+                   init_items=[1, 2, 3], lock_client=1)
+        cj_dfs.append((cfg, {1: [op('lock'), op('unlock')], 2: [o, {'op': 'len', 'a': {}}]}, 2, 25 if tier == 'quick' else 120, seed, 0))
     k = 14 if tier == 'quick' else 150
     for i in range(k):
         maxlen = rng.choice([-1, -1, 1, 2])
